@@ -28,6 +28,8 @@ def run(ctx, db, tier):
     # the mutex's FIFO is plain memory owned by the lock holder: after the hand-over the new owner may be running on another thread
     from . import C07, C02
     C07.unlock_once(ctx, db, 'C03.fifo-untouched-after-handover')
+    # ... and owned by the lock holder only: a requester (ready / try_lock / subscribe) that looked at it would read it while the owner writes it
+    C07.private_fifo(ctx, db, 'C03.fifo-read-by-owner-only')
     C02.link_current(ctx, db, 'C03.chain-push-links-current-top')
     # a thread that polls through has_value() / operator bool must learn "ready" through the acquire load before it reads the state tag
     C01.has_value_agrees(ctx, db, 'C03.poller-acquires-before-reading')
